@@ -52,7 +52,12 @@ def run_case(ctx, n, test_items, scen, user_std='c++17'):
     path.write_text(build(n))
     p = mk(user_std=user_std)
     loop = RefLoop(p, path, lambda c: test_items(items(Path(c).read_text())), d, max_steps=4 * n * n + 8 * n + 20)
-    loop.run()
+    loop.raised = None
+    try:
+        loop.run()
+    except Exception as e:       # the pass itself raised: judged after the trace
+        import traceback
+        loop.raised = f'{type(e).__name__}: {e} @ ' + ' < '.join(f'{f.name}:{f.lineno}' for f in reversed(traceback.extract_tb(e.__traceback__)[-3:]))
     final = path.read_text()
     cl = calls(d)
     shutil.rmtree(d, ignore_errors=True)
@@ -74,9 +79,15 @@ def judge(ctx, n, label, loop, final, cl, required, test_items, scen):
         if not (1 <= c <= t <= len(cur)):
             ctx.report('request-outside-reported-count', f'--counter={c} --to-counter={t} with {len(cur)} instances', sc)
             return
+        if c in scen.get('fail_at', []) and r['result'] == 'OK':
+            ctx.report('failed-tool-run-reported-OK', f'the tool failed (status {scen.get("fail_code")}) on --counter={c} but transform returned OK', sc)
+            return
         if r['result'] != 'OK' and r['after'] != r['before']:
             ctx.report('output-of-failed-tool-run-used', f'tool result {r["result"]} but the candidate file was rewritten', sc)
             return
+    if loop.raised:
+        ctx.report('pass-raised', f'clangbinarysearch raised {loop.raised}', sc)
+        return
     tr = [a for a in cl if any(x.startswith('--transformation=') for x in a)]
     got = [(int([x for x in a if x.startswith('--counter=')][0].split('=')[1]), int([x for x in a if x.startswith('--to-counter=')][0].split('=')[1])) for a in tr]
     if got != [(c, t) for c, t, *_ in reqs]:
@@ -119,7 +130,7 @@ def run(ctx):
         req = o['test'].get('required')
         ti = (lambda its: all(r in its for r in req)) if req is not None else (lambda its: False)
         loop, final, cl, p = run_case(ctx, o['n'], ti, o['tool'])
-        judge(ctx, o['n'], o['test'], loop, final, cl, req, ti, o['tool'])
+        judge(ctx, o['n'], o['test'], loop, final, cl, None if o['test'].get('faulty') else req, ti, o['tool'])
         print('replayed ->', 'fails' if ctx.violations else 'holds')
         return 1 if ctx.violations else 0
     ctx.lean_gate(OBLIGATIONS)
@@ -147,15 +158,18 @@ def run(ctx):
         reals.append(trace_str(loop, final))
         scens.append({'n': n, 'all_reject': True})
     # tool failures: output of a failed run must not be used; STOP on 255, ERROR otherwise
-    for k in range(20 if ctx.tier == 'quick' else 200):
-        n = ctx.rng.randint(2, 9)
-        scen = {'fail_at': [ctx.rng.randint(1, n)], 'fail_code': ctx.rng.choice([255, 1, 2])}
-        req = [i for i in range(n) if ctx.rng.random() < 0.5]
-        ti = (lambda its, req=req: all(r in its for r in req))
-        loop, final, cl, p = run_case(ctx, n, ti, scen)
-        ctx.count()
-        judge(ctx, n, {'required': req, 'faulty': True}, loop, final, cl, None, ti, scen)
-        ctx.nontrivial(('fail', n, k))
+    def fail_runs(count):
+        for k in range(count):
+            n = ctx.rng.randint(2, 9)
+            # ordinary non-zero statuses and deaths from a signal (negative return code in Python)
+            scen = {'fail_at': [ctx.rng.randint(1, n)], 'fail_code': ctx.rng.choice([255, 1, 2, 3, 254, -11, -6, -9])}
+            req = [i for i in range(n) if ctx.rng.random() < 0.5]
+            ti = (lambda its, req=req: all(r in its for r in req))
+            loop, final, cl, p = run_case(ctx, n, ti, scen)
+            ctx.count()
+            judge(ctx, n, {'required': req, 'faulty': True}, loop, final, cl, None, ti, scen)
+            ctx.nontrivial(('fail', n, scen['fail_at'][0], scen['fail_code'], tuple(req)))
+    fail_runs(30 if ctx.tier == 'quick' else 300)
     # standard detection: the most instances, newest on ties; failing / silent / slow queries count as 0
     for k in range(12 if ctx.tier == 'quick' else 120):
         n = ctx.rng.randint(1, 6)
@@ -189,7 +203,7 @@ def run(ctx):
         if r != m:
             diffs.append({**sc, 'line': ln, 'real': r, 'model': m})
     ctx.sample({'scenario': scens[7], 'observed': reals[7]})
-    conclude(ctx, diffs, None)
+    conclude(ctx, diffs, lambda budget: fail_runs(150))
     ctx.assumptions += ['the stand-in tool defines an instance as a line starting with "I"; real clang_delta is not available',
                         'a tool run that exits 0 without the stderr count line is outside the tool contract (AttributeError in advance_on_success), recorded in DESIGN.md']
     return ctx.finish(obligations=OBLIGATIONS,
